@@ -160,25 +160,25 @@ class _STIXBase(collections.abc.Mapping):
         if isinstance(extensions, collections.abc.Mapping) \
                 and not isinstance(self, stix2.v20._STIXBase20):
             for ext_id, ext in extensions.items():
-                if (
-                    isinstance(ext, collections.abc.Mapping) and
-                    ext.get("extension_type") == "toplevel-property-extension"
-                ):
-                    registered_ext_class = class_for_type(
-                        ext_id, "2.1", "extensions",
+                if not isinstance(ext, collections.abc.Mapping):
+                    continue
+                registered_ext_class = class_for_type(
+                    ext_id, "2.1", "extensions",
+                )
+                if registered_ext_class:
+                    # What a registered extension is, its class says (the
+                    # content may leave "extension_type" to the class, or
+                    # contradict it: validating "extensions" will complain
+                    # about a mismatch later).  An extension of another
+                    # kind has no toplevel properties.
+                    registered_toplevel_extension_props.update(
+                        getattr(
+                            registered_ext_class,
+                            "_toplevel_properties", None,
+                        ) or {},
                     )
-                    if registered_ext_class:
-                        # A registered extension of another kind has no
-                        # toplevel properties; validating "extensions" will
-                        # complain about the mismatch later.
-                        registered_toplevel_extension_props.update(
-                            getattr(
-                                registered_ext_class,
-                                "_toplevel_properties", None,
-                            ) or {},
-                        )
-                    else:
-                        has_unregistered_toplevel_extension = True
+                elif ext.get("extension_type") == "toplevel-property-extension":
+                    has_unregistered_toplevel_extension = True
 
         # (properties given by way of "custom_properties" are no more custom
         # than the same properties given as keyword arguments)
